@@ -793,8 +793,10 @@ def run(sc, linger=None, shutdown_again=True):
                 res["r"] = ("raise", exc_id(e), type(e).__name__)
             res["diag"] = {n: [o.failed_time_out(), o.failed_critical(), o.why()] for n, o in objs.items()
                            if isinstance(o, PureScheduler)}
+            res["stats"] = {n: o.stats() for n, o in objs.items() if isinstance(o, PureScheduler)}
             emit("topend", None)
-            emit("snap", None, snapshot())
+            res["final"] = snapshot()
+            emit("snap", None, res["final"])
             await asyncio.sleep(linger)
             emit("lingered", None)
             if shutdown_again:
